@@ -10,14 +10,14 @@ from vlib import ToolError
 # property -> plan.  mc: exhaustive configurations (module names);
 # gen: (generation module, quick count, thorough count, depth, drain)
 PLAN = {
-    "C01": {"mc": ["MC_Lease", "MC_Prune"], "gen": [("Gen_Mixed", 120, 3000, 25, True), ("Gen_Prune", 60, 1500, 34, True), ("Gen_DeadLetter", 40, 1000, 32, True)]},
-    "C02": {"mc": ["MC_Lease", "MC_Names"], "gen": [("Gen_Mixed", 160, 4000, 25, True), ("Gen_Names", 60, 1500, 32, True)]},
+    "C01": {"mc": ["MC_Lease", "MC_Prune"], "gen": [("Gen_Mixed", 100, 3000, 25, True), ("Gen_Prune", 60, 1500, 34, True), ("Gen_DeadLetter", 40, 1000, 32, True), ("Gen_Snap", 60, 1500, 30, True)]},
+    "C02": {"mc": ["MC_Lease", "MC_Names"], "gen": [("Gen_Mixed", 160, 4000, 25, True), ("Gen_Names", 60, 1500, 32, True), ("Gen_Snap", 60, 1500, 30, True)]},
     "C03": {"mc": ["MC_Lease", "MC_DeadLetter"], "gen": [("Gen_Mixed", 120, 3000, 25, True), ("Gen_Ordered", 60, 1500, 30, True), ("Gen_DeadLetter", 60, 1500, 32, True)]},
     "C04": {"mc": ["MC_Lease", "MC_Timing"], "gen": [("Gen_Mixed", 100, 2500, 25, True), ("Gen_Timing", 80, 2000, 30, True), ("Gen_DeadLetter", 40, 1000, 32, True)]},
     "C05": {"mc": ["MC_Ordered"], "gen": [("Gen_Ordered", 240, 6000, 30, True), ("Gen_Mixed", 80, 2000, 25, True)]},
     "C06": {"mc": ["MC_DeadLetter"], "gen": [("Gen_DeadLetter", 240, 6000, 32, True), ("Gen_Mixed", 60, 1500, 25, True)]},
     "C12": {"mc": ["MC_Names"], "gen": [("Gen_Names", 300, 6000, 32, False)]},
-    "C13": {"mc": ["MC_Seek"], "gen": [("Gen_Seek", 260, 6000, 32, True)]},
+    "C13": {"mc": ["MC_Seek"], "gen": [("Gen_Seek", 120, 4000, 32, True), ("Gen_Snap", 80, 4000, 30, True), ("BFS_Snap", 0, 60000, 8, False)]},
     "C14": {"mc": ["MC_Timing"], "gen": [("Gen_Timing", 260, 6000, 30, True)]},
     "C15": {"mc": ["MC_Prune"], "gen": [("Gen_Prune", 260, 6000, 34, True)]},
     # C09: every mutating step of the generated histories is re-run with the k-th
@@ -124,7 +124,14 @@ def _run(ctx, replay):
     else:
         for gi, (mod, nq, nt, depth, drain) in enumerate(plan["gen"]):
             n = nq if tier == "quick" else nt
-            hs = vlib.tlc_gen(ctx, mod, n, depth * 2 + 12, seed * 7919 + gi)
+            if mod.startswith("BFS_"):
+                m2 = mod + "_thorough" if tier == "thorough" and os.path.exists(os.path.join(vlib.SPEC, mod + "_thorough.tla")) else mod
+                hs = vlib.tlc_gen_bfs(ctx, m2)
+                if n and len(hs) > n:   # a cap: seeded sample of the enumeration
+                    import random
+                    hs = random.Random(seed).sample(hs, n)
+            else:
+                hs = vlib.tlc_gen(ctx, mod, n, depth * 2 + 12, seed * 7919 + gi)
             for i, h in enumerate(hs):
                 # fault enumeration re-runs every step many times: a coarser time unit keeps
                 # the nominal clock ahead of the wall clock
